@@ -185,8 +185,8 @@ PROPS["C05"] = dict(
     title='A panicking handler never harms the publisher or the other handlers',
     theorems="Properties/C05.v",
     proof_files=["Bus/BusModel.v", "Bus/BusRun.v", "Bus/BusInv.v", "Properties/C05.v"],
-    suites=[dict(name="bus05", mod="core", family="bus05", corr="Corr.BusOracle", check="check_bus", shard=25), dict(name="busseq", mod="core", family="busseq", corr="Corr.BusOracle", check="check_bus", shard=25)],
-    level_text="Proved in Coq: a panic anywhere inside a handler invocation unwinds exactly to that invocation's deferred recover; everything queued behind it (remaining handlers of the publish, once-removal, after hooks, the caller's continuation) is kept; registry, once-flags, wait counter and locks are untouched by the unwinding; then the Sequential lock is released, the panic handler runs exactly once (if set), the completion callback carries the error, an async delivery reaches wg.Done; the wait-counter and lock invariants (C06, C07) hold on every schedule of panicking programs, so Wait returns and a panicking Sequential handler can run again. Tied to the code by controller-driven runs with 60% panicking bodies of every kind/option at random positions; the harness isolates crashes as labels.",
+    suites=[dict(name="bus05", mod="core", family="bus05", corr="Corr.BusOracle", check="check05", shard=25), dict(name="busseq", mod="core", family="busseq", corr="Corr.BusOracle", check="check05", shard=25)],
+    level_text="Proved in Coq: a panic anywhere inside a handler invocation unwinds exactly to that invocation's deferred recover; everything queued behind it (remaining handlers of the publish, once-removal, after hooks, the caller's continuation) is kept; registry, once-flags, wait counter and locks are untouched by the unwinding; then the Sequential lock is released, the panic handler runs exactly once (if set), the completion callback carries the error, an async delivery reaches wg.Done; the wait-counter and lock invariants (C06, C07) hold on every schedule of panicking programs, so Wait returns and a panicking Sequential handler can run again. The panic handler is modelled as user code with a body of its own (it may call back into the bus, e.g. publish the failed event again: theorem C05_panic_handler_step, example C05_retry_from_the_panic_handler); over every schedule of programs in which only handler bodies panic no goroutine ever crashes (C05_handler_panics_never_crash). Tied to the code by controller-driven runs with 60% panicking bodies of every kind/option at random positions, panic handlers with and without a body, and the clause that every thread comes back (the documented self-delivery exception apart); the harness isolates crashes as labels.",
     level_note='Trusted: Coq kernel + vm_compute; the hand-written small-step model of event_bus.go / persistEvent (flat registry; sync.Mutex, RWMutex, WaitGroup, atomic CAS, goroutine creation and recover are modelled as atomic micro-steps); the controller harness (parks goroutines at user-code callbacks, reads goroutine states from runtime.Stack) and the replay of its log on the model (Bus/BusRun.v); the oracle Corr/BusOracle.v; interleavings strictly inside bus code are not forced by the controller.',
     rule='cases = seeded random programs (threads, handler/filter/hook bodies that call back into the bus, options) run on the real bus under the controller with a seeded random schedule; every run is replayed on the Coq model along the controller log and judged by the oracle; directed witness programs run first; C05: 1-2 goroutines, 60% of handler bodies end in a panic, all option combinations, repeated publishes, Wait; non-trivial = every case; distinct = distinct program+schedule',
 )
